@@ -1535,7 +1535,7 @@ func (run *simRun) safeObserve(ni *nodeInc) {
 	defer func() {
 		if v := recover(); v != nil {
 			ni.obsBroken = true
-			if ni.intruder != nil {
+			if ni.intruder != nil && !ni.closing() {
 				// a second instance got past the lock and writes the same files
 				run.violate("C20", "two_instances", "two_instances_serve_one_directory", "the storage of %v became unreadable (%v) while a second Raft instance was running on its directory", ni, v)
 				if !run.stop {
